@@ -47,7 +47,7 @@ theorem isMinimal_iff_size (ds : DSymData) (hs : ValidSym ds) (hsz : 1 ≤ ds.si
   refine ⟨c, hc, ⟨fun hmin => ?_, fun hsize => ?_⟩⟩
   · have : minimalImage ds = .ok ds := by
       unfold minimalImage
-      simp only [hmin]
+      simp only [isMinimalUF_eq, hmin]
       exact asPartialDSym_self ds hs.toValidTables hsz hdim
     rw [this] at hc
     cases hc
